@@ -81,6 +81,14 @@ Theorem C05_size_uint_refuted : exists v v', in_u64 v = true /\ in_u64 v' = true
   as_u32 v <> v /\ size_uint_accepts v 5 = false /\ as_u32 v' = v' /\ size_uint_accepts v' 5 = false.
 Proof. exact size_uint_refuted. Qed.
 
+(* control.rs plus_operation: `.plus` on two literals of the schema (debug builds panic on overflow) *)
+Theorem C05_plus_checked_total : forall a b, (0 <= a < 2 ^ 62)%Z -> (0 <= b < 2 ^ 62)%Z -> plus_checked a b = Some (a + b)%Z.
+Proof. exact plus_checked_total. Qed.
+
+Theorem C05_plus_checked_refuted : exists a b a' b', in_u64 a = true /\ in_u64 b = true /\ plus_checked a b = None /\
+  in_i64 a' = true /\ in_i64 b' = true /\ plus_checked a' b' = None.
+Proof. exact plus_checked_refuted. Qed.
+
 (* ---------- non-vacuity ---------- *)
 (* an acyclic alias environment with a choice, a chain and an undefined name *)
 Example C05_acyclic_example :
